@@ -113,17 +113,19 @@ GROUPS += [
                   "round_sequence / sequence values in one query (one inductive step); " + INV_TXT,
     },
     {
-        "id": "C07.sym", "property": "C07", "crate": "core", "harnesses": ["c07_next_probe_sym", "c07_reissue_probe_sym"],
+        "id": "C07.sym", "property": "C07", "crate": "core", "harnesses": ["c07_next_probe_sym"],
         "jobs": 2, "timeout_s": 900, "mem_gb": 24, "functions": STATE_FNS,
-        "bounds": "next_probe / reissue_probe with round_sequence, sequence (hence slot index), ttl, round, config ALL "
-                  "symbolic; scalar post-conditions only; " + INV_TXT,
+        "bounds": "next_probe with round_sequence, sequence (hence slot index), ttl, round, config ALL symbolic; scalar "
+                  "post-conditions only (the same for reissue_probe is in the thorough tier: its two symbolic-index writes sit "
+                  "at the solver's memory cliff, 106 s / 10 GB on one build and > 900 s / 30 GB on the next); " + INV_TXT,
     },
     {
         "id": "C07.slot", "property": ["C07", "C01"], "crate": "core",
         "harnesses": ["c07_next_probe_slot", "c07_reissue_probe_slot"], "jobs": 8, "timeout_s": 300, "mem_gb": 8,
         "functions": STATE_FNS,
         "bounds": "slot contents at window positions (round_sequence, size) in {(0,0),(0,511),(33434,7),(33434,253),"
-                  "(64511,1),(65022,0),(65022,511)} / reissue {(0,1),(33434,300),(65022,511)}; every other field symbolic",
+                  "(64511,1),(65022,0),(65022,511)} / reissue {(0,1),(1,2),(255,255),(33434,300),(64511,255),(65022,256),(65022,511)}; "
+                  "every other field (ttl, round, config, ports, ids) symbolic",
         "assumptions": ["slot effects do not depend on the numeric window position (by inspection: one or two computed "
                         "indices, no other slot is read)"],
     },
@@ -318,8 +320,14 @@ GROUPS += [
     },
     {
         "id": "T.slots.c07", "property": ["C07", "C01"], "crate": "core", "tier": "thorough",
-        "harnesses": ["t07_"], "jobs": 8, "timeout_s": 600, "mem_gb": 8, "functions": STATE_FNS,
+        "harnesses": ["t07_next_probe_slot"], "jobs": 8, "timeout_s": 600, "mem_gb": 8, "functions": STATE_FNS,
         "bounds": "additional window positions (1,254) (255,255) (256,256) (63999,510) (65021,2) / reissue (1,2) (64511,255) (65022,256)",
+    },
+    {
+        "id": "T.reissue_sym", "property": "C07", "crate": "core", "tier": "thorough",
+        "harnesses": ["t07_reissue_probe_sym"], "jobs": 1, "timeout_s": 1200, "mem_gb": 27, "functions": STATE_FNS,
+        "bounds": "reissue_probe with every scalar symbolic (all window positions), scalar post-conditions; may end "
+                  "inconclusive (memory) - then the claim rests on the representative positions of C07.slot",
     },
     {
         "id": "T.send", "property": ["C06", "C09", "C01"], "crate": "core", "tier": "thorough", "stubbing": True,
